@@ -33,6 +33,11 @@ macro_rules! int_val {
     })*};
 }
 int_val!(u8, u16, u32, u64, i64, i32, u128);
+impl Val for [u8; 3] {
+    const SZ: usize = 3;
+    fn from_u64(v: u64) -> Self { [v as u8, (v >> 8) as u8, (v >> 16) as u8] }
+    fn to_u64(self) -> u64 { self[0] as u64 | (self[1] as u64) << 8 | (self[2] as u64) << 16 }
+}
 impl Val for f64 {
     const SZ: usize = 8;
     fn from_u64(v: u64) -> Self { f64::from_bits(v) }
@@ -133,6 +138,11 @@ macro_rules! common_impl {
                 let i = crate::read_paths::pick(seed, 100 + k, len, stored, pp);
                 crate::read_paths::point_paths::<Self::T, _>(&ro, "clone", i, None, false, &mut sink);
             }
+            // … and around the end of what is physically in the region (it lies below the stored length after a rollback)
+            let real = self.real_stored_len();
+            for i in real.saturating_sub(2)..real + 6 {
+                crate::read_paths::point_paths::<Self::T, _>(&ro, "clone", i, None, false, &mut sink);
+            }
             let _ = catch_unwind(AssertUnwindSafe(|| {
                 let idx: Vec<usize> = vec![0, stored.saturating_sub(1), stored, len.saturating_sub(1), len];
                 let mut idx = idx; idx.sort();
@@ -180,6 +190,7 @@ raw_vut!(BytesVec, u64);
 raw_vut!(BytesVec, u16);
 raw_vut!(BytesVec, u128);
 raw_vut!(BytesVec, f32);
+raw_vut!(BytesVec, [u8; 3]);
 raw_vut!(ZeroCopyVec, u32);
 raw_vut!(ZeroCopyVec, u64);
 comp_vut!(PcoVec, u64);
@@ -193,7 +204,7 @@ comp_vut!(ZstdVec, u16);
 
 pub const FORMATS: &[&str] = &[
     "bytes_u64", "pco_u64", "zc_u32", "lz4_u128", "bytes_u16", "pco_f64", "zstd_u32", "bytes_u128", "pco_u32", "zc_u64",
-    "lz4_u64", "bytes_f32", "pco_i64", "zstd_u16",
+    "lz4_u64", "bytes_f32", "pco_i64", "zstd_u16", "bytes_a3",
 ];
 
 pub fn err_name(e: &Error) -> String {
@@ -246,6 +257,8 @@ pub struct RefVec {
     pub off: bool,
     /// a change record was damaged on purpose (C16 fault stream)
     pub faulted: bool,
+    /// set by `fdel` / `ftrunc` (strict truncation), consumed by the very next request: that rollback must be refused
+    pub must_refuse: Option<String>,
 }
 
 pub struct Engine<V: Vut> {
@@ -575,8 +588,9 @@ impl<V: Vut> Engine<V> {
                 if let Some(d) = self.changes_dir() {
                     let p = d.join(num(1).to_string());
                     match ws[0] {
-                        "fdel" => { let _ = std::fs::remove_file(&p); self.r.retained.retain(|&x| x != num(1)); }
-                        "ftrunc" => { if let Ok(b) = std::fs::read(&p) { let n = (num(2) as usize).min(b.len()); let _ = std::fs::write(&p, &b[..n]); } }
+                        "fdel" => { let _ = std::fs::remove_file(&p); self.r.retained.retain(|&x| x != num(1)); self.r.must_refuse = Some(format!("the record of stamp {} was deleted", num(1))); }
+                        "ftrunc" => { if let Ok(b) = std::fs::read(&p) { let n = (num(2) as usize).min(b.len()); let _ = std::fs::write(&p, &b[..n]);
+                            if n < b.len() { self.r.must_refuse = Some(format!("the record of stamp {} was truncated to {n} of {} bytes", num(1), b.len())); } } }
                         _ => {
                             if let Ok(mut b) = std::fs::read(&p) {
                                 let off = num(2) as usize;
@@ -631,6 +645,16 @@ impl<V: Vut> Engine<V> {
         if let Some(vec) = self.vec.as_ref() {
             if out == "panic" { fails.push("panic".into()); }
             if !self.r.off && obs.contains("| I panic |") { fails.push(format!("C04: reading the contents panics after `{}` (stored_len {} > real_stored_len {})", ws[0], vec.v_stored(), vec.v_real())); }
+            // C16: a rollback whose change record is missing or truncated fails with an error
+            if !matches!(ws[0], "fdel" | "ftrunc" | "fpatch") {
+                if let Some(why) = self.r.must_refuse.take() {
+                    // (`rollback_before` walks the records that exist: with the newest one gone it stops at the current committed
+                    // state and answers Ok — the single `rollback` is the call that must refuse)
+                    if ws[0] == "rollback" && out.starts_with("ok") {
+                        fails.push(format!("C16: `{}` succeeded although {why}", ws[0]));
+                    }
+                }
+            }
             if self.r.faulted && matches!(ws[0], "rollback" | "rollback_before") && out.starts_with("ok") {
                 // C16: whatever a rollback over a damaged record does, it never invents contents
                 if let Ok(items) = catch_unwind(AssertUnwindSafe(|| vec.v_items())) {
@@ -730,6 +754,21 @@ impl Gen {
             return format!("reads {}", r.below(1 << 40));
         }
         match self.mode.as_str() {
+            // stored ranges larger than the 512 KiB buffer of the file-IO scan: the refill path of the stored-only sources
+            "bigscan" => {
+                if len == 0 {
+                    let n = (600_000 + r.below(900_000) as usize) / self.sz;
+                    return format!("pushn {} {}", n, r.below(1 << 30));
+                }
+                if stored < len {
+                    return "write".to_string();
+                }
+                match r.below(5) {
+                    0 => format!("truncate {}", r.below(len as u64 + 1)),
+                    1 => format!("pushn {} {}", 1 + r.below(3000), r.below(1 << 30)),
+                    _ => format!("reads {}", r.below(1 << 40)),
+                }
+            }
             "plain" | "refusals" => {
                 if self.mode == "refusals" && r.chance(1, 4) {
                     return match r.below(4) {
@@ -761,7 +800,8 @@ impl Gen {
                         format!("truncate {t}")
                     }
                     3 => { let i = self.idx(len, stored); format!("update {i} {}", self.val()) }
-                    4 => format!("delete {}", self.idx(len, stored)),
+                    // now and then at or just beyond the end: a no-op that must stay one
+                    4 => { let l = if self.rng.chance(1, 4) { len + 2 } else { len }; format!("delete {}", self.idx(l, stored)) }
                     5 => format!("take {}", self.idx(len + 1, stored)),
                     6 => format!("fill {}", self.val()),
                     7 => "write".into(),
@@ -833,7 +873,8 @@ impl Gen {
                         format!("truncate {t}")
                     }
                     3 => { let i = self.idx(len, stored); format!("update {i} {}", self.val()) }
-                    4 => format!("delete {}", self.idx(len, stored)),
+                    // now and then at or just beyond the end: a no-op that must stay one
+                    4 => { let l = if self.rng.chance(1, 4) { len + 2 } else { len }; format!("delete {}", self.idx(l, stored)) }
                     5 => {
                         self.since_commit = false;
                         let s = eng.r.stamp + 1 + if r.chance(1, 5) { r.below(3) } else { 0 };
@@ -860,7 +901,7 @@ fn run_format<V: Vut>(args: &Args, fmt: &str, cases: &[u64]) -> (Vec<String>, Ve
     let mut eng = Engine::<V>::new(&tmp);
     for &case_no in cases {
         let mut g = Gen { rng: Rng::new(seed.wrapping_mul(1_000_003).wrapping_add(case_no).wrapping_mul(31)), mode: mode.clone(), raw: V::RAW, sz: V::T::SZ, next_stamp: 1, since_commit: true, pending_fault: false, reads: args.flag("--reads"), access: args.flag("--access") };
-        let keep = if mode == "plain" || mode == "refusals" { 0 } else { *g.rng.pick(&[1u64, 2, 3, 3, 10]) };
+        let keep = if mode == "plain" || mode == "refusals" || mode == "bigscan" { 0 } else { *g.rng.pick(&[1u64, 2, 3, 3, 10]) };
         let line = format!("case {case_no} kind={} sz={} keep={keep} fmt={fmt} forced={}", if V::RAW { "raw" } else { "comp" }, V::T::SZ, g.rng.below(2));
         let (l, o) = eng.exec(&line);
         ops.push(l);
@@ -890,6 +931,7 @@ macro_rules! by_format {
             "bytes_u16" => $fun::<BytesVec<usize, u16>>($($arg),*),
             "bytes_u128" => $fun::<BytesVec<usize, u128>>($($arg),*),
             "bytes_f32" => $fun::<BytesVec<usize, f32>>($($arg),*),
+            "bytes_a3" => $fun::<BytesVec<usize, [u8; 3]>>($($arg),*),
             "zc_u32" => $fun::<ZeroCopyVec<usize, u32>>($($arg),*),
             "zc_u64" => $fun::<ZeroCopyVec<usize, u64>>($($arg),*),
             "pco_u64" => $fun::<PcoVec<usize, u64>>($($arg),*),
